@@ -43,6 +43,10 @@ def run_seed(sid, props, in_repo=False):
         ef = os.path.join(V, 'evidence', p + '.json')
         if os.path.exists(ef):
             backup[ef] = open(ef).read()
+    # generated Lean files must keep describing the unchanged tree as well
+    import glob
+    for gf in glob.glob(os.path.join(V, 'lean', 'Alpaqa', 'Gen', '*.lean')):
+        backup[gf] = open(gf).read()
     try:
         for p in props:
             script = os.path.join(V, 'checks', p.lower() + '.py')
